@@ -38,6 +38,7 @@ def run(ctx):
         fs = ctx.facts(cfg)
         consumers.ledger(ctx, cfg, fs, 'L.ledger')
         consumers.primitives(ctx, cfg, fs, 'P.primitives')
+        consumers.itemstate(ctx, cfg, fs, 'P.primitives')
         consumers.consumers(ctx, cfg, fs, 'C.read-remove')
         consumers.leftover(ctx, cfg, fs, 'O.leftover')
         discipline(ctx, cfg, fs)
